@@ -645,11 +645,13 @@ def shapes(tier, seed):
                 kind = "probs" if via == "function" else "counts"
                 out.append(Shape(f"resample/{via}/N{ncount}/{nm(n, keys)}", h_resample,
                                  dict(n=n, keys=keys, kind=kind, ncount=ncount, via=via), modules=MODS))
+    out.append(Shape("resample/function/N10000000/n1/0+1/chunk-multiple", h_resample,
+                     dict(n=1, keys=["0", "1"], kind="probs", ncount=10 ** 7, via="function"), modules=MODS))
     if not quick:
         out.append(Shape("resample/function/N10000003/n2/00+11", h_resample,
                          dict(n=2, keys=["00", "11"], kind="probs", ncount=10 ** 7 + 3, via="function"), modules=MODS))
-        out.append(Shape("resample/function/N10000000/n1/0+1", h_resample,
-                         dict(n=1, keys=["0", "1"], kind="probs", ncount=10 ** 7, via="function"), modules=MODS))
+        out.append(Shape("resample/function/N20000000/n1/0+1", h_resample,
+                         dict(n=1, keys=["0", "1"], kind="probs", ncount=2 * 10 ** 7, via="function"), modules=MODS))
     # ---------------- canaries
     k2 = ["00", "01", "11"]
     C = lambda name, fn, kw: out.append(Shape("canary/" + name, fn, dict(kw, canary=True), modules=MODS, canary=True))      # noqa: E731
